@@ -241,7 +241,7 @@ def multiline_test(line: str) -> bool:
     """
     if line.split('!')[0].rstrip().endswith('='):
         # A '=' character in a rem line is not a line break!
-        if line.startswith("REM") and not dsr_regex.match(line):
+        if line[:3].upper() == "REM" and not dsr_regex.match(line):
             return False
         return True
     else:
